@@ -97,7 +97,7 @@ def bi_formatter_write_fmt(eng, st, args, d, r, callee=''):
     if not items: st.out = getattr(st, 'out', ()) + (('lit', tpl),)
     return ('value', ok_unit())
 
-RENDERINGS = ['a', 'a\nb', 'a\n\nb']
+RENDER_TABLE = [['a'], ['a\nb'], ['a\n\nb']]      # chunks per rendering; set by the harness
 def bi_write_fmt(eng, st, args, d, r, callee=''):
     """<W as fmt::Write>::write_fmt(w, Arguments) : each argument is a payload; its rendering is chosen by rsel[payload id]"""
     w, a = args
@@ -110,8 +110,8 @@ def bi_write_fmt(eng, st, args, d, r, callee=''):
     st.modes = getattr(st, 'modes', ()) + ((kind, alt),)
     choice = eng.render_choice(p.e)       # z3 BV8 expr
     forks = []
-    for k, text in enumerate(RENDERINGS):
-        chunks = VecV(S(1, 'usize'), 1, [PyStr(text)])
+    for k, chs in enumerate(RENDER_TABLE):
+        chunks = VecV(S(len(chs), 'usize'), len(chs), [PyStr(t) for t in chs])
         forks.append((choice == k, ('chunks', chunks)))
     return ('fork_call', forks, w)
 
